@@ -23,6 +23,9 @@ Clauses(run, k) ==
        \cup (IF s.up /\ everDef /\ s.principal_ok /\ ~s.ab_ok THEN {"walk-does-not-reach-an-addressbook"} ELSE {})
        \cup (IF s.up /\ k > 1 /\ ~s.userdata_ok THEN {"user-data-lost-or-changed-by-restart"} ELSE {})
        \cup (IF k > 1 /\ ~s.preserved THEN {"restart-removed-or-reinitialised-existing-data"} ELSE {})
+       \* what a client is shown (collections of the home sets with their resource types) at the
+       \* end of one lifetime of the server is what it is shown at the start of the next
+       \cup (IF s.up /\ k > 1 /\ ~s.listing_same THEN {"collections-listed-differently-after-restart"} ELSE {})
 
 Judge(run, i) ==
     UNION {
